@@ -183,7 +183,10 @@ func matNode(b *Behaviour, f, n int, d NodeDef, opts *MatOpts) M {
 		acts = append(acts, M{"uuid": actionUUID(f, n, 1), "type": "set_run_result", "name": "last", "value": fmt.Sprintf("n%d_%d", f, n), "category": "Visited"})
 		node["exits"] = exitsFor(f, n, d.D1)
 	case "failact":
-		acts = append(acts, M{"uuid": actionUUID(f, n, 1), "type": "enter_flow", "flow": M{"uuid": missingFlowUUID, "name": "Missing"}})
+		// the failing action is not the last one of its node: what follows it (a result, a sub-flow that exists) is not executed
+		acts = append(acts, M{"uuid": actionUUID(f, n, 1), "type": "enter_flow", "flow": M{"uuid": missingFlowUUID, "name": "Missing"}},
+			M{"uuid": actionUUID(f, n, 2), "type": "set_run_result", "name": "after_failure", "value": "x", "category": "Never"},
+			M{"uuid": actionUUID(f, n, 3), "type": "enter_flow", "flow": M{"uuid": leafFlowUUID, "name": "Leaf"}})
 		node["exits"] = exitsFor(f, n, 0)
 	case "split":
 		acts = append(acts, M{"uuid": actionUUID(f, n, 1), "type": "set_contact_field", "field": M{"key": "vc", "name": "Vc"}, "value": "@(default(fields.vc, 0) + 1)"})
@@ -272,6 +275,8 @@ func matAssets(b *Behaviour, opts *MatOpts, gone map[int]bool) []byte {
 		fl = append(fl, M{"uuid": flowUUID(f), "name": fmt.Sprintf("Flow %d", f), "spec_version": "13.6.0", "language": "eng", "type": ftype,
 			"expire_after_minutes": 60, "nodes": nodes})
 	}
+	fl = append(fl, M{"uuid": leafFlowUUID, "name": "Leaf", "spec_version": "13.6.0", "language": "eng", "type": ftype, "expire_after_minutes": 60,
+		"nodes": []M{{"uuid": "b0ae4ad9-a4a0-4b4b-9f43-1a0fbd1ff8a5", "actions": []M{}, "exits": []M{{"uuid": "0c3f9be4-3d2b-4b1a-8a19-6c0d6f3c4c11"}}}}})
 	a := M{
 		"flows":  fl,
 		"fields": []M{{"uuid": "f1b5aea6-6586-41c7-9020-1a6326cc6565", "key": "vc", "name": "Vc", "type": "number"}},
@@ -283,6 +288,9 @@ func matAssets(b *Behaviour, opts *MatOpts, gone map[int]bool) []byte {
 	}
 	return mustJSON(a)
 }
+
+// a flow outside the modelled ones that exists and ends at once (entered only by actions that must not be executed)
+const leafFlowUUID = "6a1b1c44-54b5-4a3b-8c5f-2f3a5a1d9e77"
 
 func mustJSON(v any) []byte {
 	bs, err := json.Marshal(v)
